@@ -128,6 +128,17 @@ def extract_family(fam, cfg):
                         raise extract.AnchorLost(f"regex {it['regex']!r} matches {len(ms)} times")
                     text = ms[0].group(0)
                     rep["source"] = f"{it['file']}:{extract.line_of(src, ms[0].start())}"
+                elif kind == "arm":
+                    # one match arm of a (possibly nested) fn, emitted as `sig { <arm body> }`
+                    if it.get("impl"):
+                        info = extract.find_fn_in_impls(src, it["fn"], it["impl"])
+                    else:
+                        info = extract.find_fn(src, it["fn"], 0, len(src))
+                    if it.get("inner_fn"):
+                        info = extract.find_fn(src, it["inner_fn"], info["body_start"], info["body_end"])
+                    abody, is_block, span = extract.find_arm(src, it["arm"], info["body_start"], info["body_end"])
+                    text = it["sig"] + " {\n" + abody + "\n}"
+                    rep["source"] = f"{it['file']}:{extract.line_of(src, span[0])}-{extract.line_of(src, span[1])} (arm `{it['arm']}`)"
                 elif kind == "closure_in_arm":
                     if it.get("impl"):
                         info = extract.find_fn_in_impls(src, it["fn"], it["impl"])
